@@ -13,7 +13,7 @@ LEVEL = 'exploration'
 RULE = ('rows of InResponseTo {matching, unknown, absent} x SCD.InResponseTo {matching, other outstanding, unknown, absent} x Destination {own ACS for the binding, own ACS of '
         'another binding, foreign, absent} x AudienceRestrictions {none, [me], [other], [me,other], [me]+[other], [other]+[me], no Conditions} x Recipient {entity id, own endpoint, '
         'foreign} x allow_unsolicited x conv_info x valid_destination_regex {unset, matching, non-matching} x {plain, encrypted} x binding {POST, Redirect, SOAP} x {unsigned, signed}; '
-        'quick: deterministic stride sample of the product plus all single-dimension deviations from the conformant row; thorough: the whole product. '
+        'quick: deterministic stride sample of the product plus all single-dimension deviations from the conformant row; thorough: the same with every third row of the product (the whole product, 338 688 rows, takes an hour; `Rows(full=True)` still builds it). '
         'generated (Hypothesis): the conformant row with 1-6 dimensions moved, over the same dimensions plus the value stored for the outstanding request {path, empty string, "0", blank} and '
         'SP configured with / without an assertion-consumer endpoint for the delivering binding, the entry point {parse_authn_request_response, parse_attribute_query_response} and a conformant EncryptedAssertion riding along with the plain one. Non-trivial = at least one dimension off its conformant value; distinct = distinct row.')
 ASSUMPTIONS = ['solicitation (clause 1) is judged for the browser bindings POST/Redirect only; SOAP (synchronous) rows are judged for audience and recipient only',
@@ -260,6 +260,6 @@ def known_match(part, row, v):
 
 def parts(tier):
     quick = tier != 'thorough'
-    return [Part('rows', run, cases=lambda: Rows(full=not quick), exhaustive=not quick, distinct_by_construction=True,
+    return [Part('rows', run, cases=lambda: Rows(full=False, stride=61 if quick else 3), exhaustive=False, distinct_by_construction=True,
                  mandatory=['reject|reject', 'accept|accept']),
             Part('generated', run, strategy=generated_strategy, examples=4000 if quick else 150000)]
